@@ -297,7 +297,9 @@ Definition stmt (c : case) (io : obs) : bool :=
 Definition stmt_tested (c : case) (io : obs) : bool :=
   match c, io with
   | CSign tk k m m2 k2, [Ok pub; Ok sg; v1; v2; v3] =>
-      (list_eqb m m2 || res_eqb v2 (ob false)) && (list_eqb k k2 || res_eqb v3 (ob false))
+      (list_eqb m m2 || res_eqb v2 (ob false)) &&
+      (* "another key" = another PUBLIC key: two extended secrets with the same scalar share the public key *)
+      (match sk_from_bytes_tk tk k2 with Ok sk2 => list_eqb pub (sk_to_public P sk2) | _ => true end || res_eqb v3 (ob false))
   | CDerive root path, [Ok kf; Ok pf; rp; rk; Ok ra; Ok rb; Ok ca; Ok cb] => res_eqb rk (Ok kf)
   | _, _ => true
   end.
